@@ -61,7 +61,7 @@ def gen_program(rng: Any) -> dict[str, Any]:
         tasks.append({"kind": "dispatcher", "steps": steps})
     for _ in range(rng.randint(1, 4)):
         sigs = rng.sample(chans, rng.randint(1, min(3, len(chans))))
-        style_kind = rng.choice(["eager", "eager", "count", "slow", "raise", "cancel", "abandon"])
+        style_kind = rng.choice(["eager", "eager", "count", "slow", "raise", "cancel", "abandon", "linger"])
         style = {"kind": style_kind, "n": rng.randint(0, 6), "delay": rng.choice([0.5, 1, 3]), "yields": rng.randint(0, 2)}
         tasks.append({"kind": "subscriber", "start": gen_steps(rng, rng.randint(0, 3)), "signals": sigs,
                       "filter": rng.choice([None, "all", {"mod": 2, "rem": 0}, {"mod": 3, "rem": 1}]),
@@ -88,6 +88,10 @@ def gen_program(rng: Any) -> dict[str, Any]:
 
 
 class ConsumerFailure(Exception):
+    pass
+
+
+class FilterFailure(Exception):
     pass
 
 
@@ -154,7 +158,14 @@ class Run:
         sigs = self.signals(spec["signals"])
         flt = spec["filter"]
 
+        pulls = [0]
+
         def filt(ev: Any) -> bool:
+            pulls[0] += 1
+            if spec["style"]["kind"] == "linger" and pulls[0] > spec["style"]["n"]:
+                # ends the iterator; the consumer catches it and stays in its block (the event is lost with the iterator: not a "pull")
+                self.trace.log("pull-failed", sid, eid=ev.n)
+                raise FilterFailure("the filter failed")
             self.trace.log("pull", sid, eid=ev.n)
             return passes(flt, ev.n)
 
@@ -194,8 +205,16 @@ class Run:
                                 await anyio.sleep(style["delay"])
                             if style["kind"] == "count" and count >= style["n"]:
                                 break
+                            if style["kind"] == "linger" and flt is None and count >= style["n"]:
+                                break
                             if style["kind"] == "raise" and count >= max(1, style["n"]):
                                 raise ConsumerFailure("consumer failed")
+                    if style["kind"] == "linger":
+                        await self.linger(sid, stream, style)
+                    self.trace.log("sub-exit-begin", sid, how="normal")
+                except FilterFailure:
+                    # the iterator is over (its filter raised), the consumer is not: it stays in the block for a while
+                    await self.linger(sid, None, style)
                     self.trace.log("sub-exit-begin", sid, how="normal")
                 except BaseException as e:
                     self.trace.log("sub-exit-begin", sid, how=describe_exc(e))
@@ -204,6 +223,14 @@ class Run:
             pass
         finally:
             self.trace.log("sub-exited", sid)
+
+    async def linger(self, sid: int, stream: Any, style: dict[str, Any]) -> None:
+        """a consumer that is done with its iterator (closed it, or its filter raised) but has not left the `async with` block
+        yet: it is still a subscriber of a sort, and dispatching must not care"""
+        if stream is not None:
+            await stream.aclose()
+        self.trace.log("sub-lingering", sid)
+        await anyio.sleep(style["delay"])
 
     async def bad_subscriber(self, bid: int, spec: dict[str, Any]) -> None:
         from asphalt.core import UnboundSignal, stream_events, wait_event
@@ -532,6 +559,9 @@ def check(run: Run) -> tuple[list[dict[str, Any]], dict[str, int]]:
         inc("histories_with_abandoned_subscriber")
     if any(t["kind"] == "subscriber" and t["style"]["kind"] in ("count", "raise", "cancel") for t in prog["tasks"]):
         inc("histories_with_leaving_subscriber")
+    n_linger = sum(1 for e in tr.events if e["kind"] == "sub-lingering")
+    if n_linger:
+        inc("subscribers_lingering_in_their_block_after_their_iterator_ended", n_linger)
     inc(f"backend_{prog['backend']}")
     if any(e["kind"] == "reincarnate" for e in tr.events):
         inc("histories_with_owner_replaced")
